@@ -11,7 +11,7 @@ def run(tier):
     sp = splitsmt.SplitTheta()
     SS = sp.SS.StatementSplitter
     chk.functions += [src_ref(SS._change_splitlevel), src_ref(SS._reset), src_ref(SS.process), src_ref(SS.__init__)]
-    n = 18 if tier == "quick" else 24
+    n = 18 if tier == "quick" else 26
     chk.bounds = dict(tokens=n, theta=sp.K, theta_skipped_lexemes=sp.skipped, block_nesting_max=4, paren_depth_max=3,
                       outside='scripts longer than n tokens; lexemes outside Theta (every other name/literal/keyword behaves like its class representative only as far as the splitter source compares them); bodies nested deeper than 4 blocks')
     chk.states = n * sp.K
